@@ -1,3 +1,4 @@
+import BasicModel.Thm.Tables
 import BasicModel.Spec.PrecSpec
 import BasicModel.Lemmas.ParseExpr
 import BasicModel.Lemmas.ParseFuel
@@ -580,6 +581,12 @@ example : Ops.sum (.str ['A']) (.int 1) = err Code.typeMismatch := by decide
 example : Ops.power (.int 2) (.int 10) = .ok (.int 1024) := by decide
 example : resultTy .divide .int .int = .sng ∧ resultTy .add .int .sng = .sng ∧
     resultTy .multiply .sng .dbl = .dbl ∧ resultTy .modulo .dbl .dbl = .int := by decide
+
+/-- the runtime's opcode → `Operation::…` / `Function::…` dispatch, re-extracted from
+    `runtime.rs` on every run, is the documented one (a `Sub` wired to `sum`, or a swapped pair of
+    comparison arms, breaks this theorem) -/
+theorem dispatch_documented : Gen.dispatch = Thm.Tables.documentedDispatch :=
+  Thm.Tables.dispatch_documented
 
 end Thm.C02
 end Basic
